@@ -519,24 +519,31 @@ Fixpoint insert_sorted (x : N) (l : list N) : list N :=
   match l with [] => [x] | y :: t => if x <=? y then x :: l else y :: insert_sorted x t end.
 Definition sort_n (l : list N) : list N := fold_right insert_sorted [] l.
 
-Fixpoint addpath_reaches (x : ectx) (d : N) (replaced : option N) (e : emap)
+(* [fixed]: false = the code as found; true = after the repository commit
+   "fix: re-advertise LLGR-stale paths ..." (export.rs): a change with
+   any_changed whose best path is LLGR-stale is no longer skipped in the
+   best-only branch, and an LLGR-stale path is re-sent in the Add-Path branch
+   even if its id was already sent. *)
+Fixpoint addpath_reaches (fixed : bool) (x : ectx) (d : N) (replaced : option N) (e : emap)
          (top : list (N * list attr * option nexthop * source)) : res (list sinkop * emap) :=
   match top with
   | [] => Ok ([], e)
   | (pid, a, nh, s) :: t =>
     let already := em_contains_path e d pid in
     let was_replaced := match replaced with Some r => r =? pid | None => false end in
-    if negb already || was_replaced then
+    if negb already || was_replaced || (fixed && src_llgr s) then
       rbind (export_attrs x a) (fun a' =>
-        rbind (addpath_reaches x d replaced (em_mark_sent e d pid) t) (fun r =>
+        rbind (addpath_reaches fixed x d replaced (em_mark_sent e d pid) t) (fun r =>
           Ok (Reach d pid nh a' s :: fst r, snd r)))
-    else addpath_reaches x d replaced e t
+    else addpath_reaches fixed x d replaced e t
   end.
 
-Definition process_change (x : ectx) (pol : policy_fn) (emax : N) (raddr : ipaddr) (cid : option N)
-           (c : change) (e : emap) : res (list sinkop * emap) :=
+Definition process_change_v (fixed : bool) (x : ectx) (pol : policy_fn) (emax : N) (raddr : ipaddr)
+           (cid : option N) (c : change) (e : emap) : res (list sinkop * emap) :=
   if emax =? 1 then
-    if negb (c_best_changed c) then Ok ([], e)
+    let llgr_refresh := fixed && c_any_changed c &&
+                        match c_paths c with best :: _ => src_llgr (p_src best) | [] => false end in
+    if negb (c_best_changed c) && negb llgr_refresh then Ok ([], e)
     else
       let vis := match c_paths c with
                  | [] => None
@@ -571,8 +578,41 @@ Definition process_change (x : ectx) (pol : policy_fn) (emax : N) (raddr : ipadd
       let cur := map (fun t => fst (fst (fst t))) top in
       let gone := sort_n (filter (fun pid => negb (mem pid cur)) sent) in
       let e1 := fold_left (fun e pid => em_mark_withdrawn e (c_dest c) pid) gone e in
-      rbind (addpath_reaches x (c_dest c) (c_replaced c) e1 top) (fun r =>
+      rbind (addpath_reaches fixed x (c_dest c) (c_replaced c) e1 top) (fun r =>
         Ok (map (fun pid => Unreach (c_dest c) pid) gone ++ fst r, snd r)).
+
+(* the code of the working tree *)
+Definition process_change := process_change_v true.
+
+(* ------------------------------------------------------------ the LLGR period begins
+   One destination holding one unfiltered path learned from peer [ps]:
+   Table::insert reports (best_changed, any_changed) = (true, true);
+   Table::restale_llgr(addr) sets the shared llgr_stale flag of the source and,
+   the best path id being unchanged, reports best_changed = false,
+   any_changed = true, replaced_path_id = None with the same path list
+   (table/src/lib.rs restale_llgr).  Both changes are exported to the same
+   neighbour. *)
+Definition set_llgr (ps : peer_src) (b : bool) : peer_src :=
+  {| ps_raddr := ps_raddr ps; ps_rasn := ps_rasn ps; ps_lasn := ps_lasn ps; ps_rid := ps_rid ps;
+     ps_role := ps_role ps; ps_llgr := b |}.
+
+Definition IPV4_UNICAST : N := 65537.
+
+Definition llgr_change1 (ps : peer_src) (nh : option nexthop) (attrs : list attr) : change :=
+  {| c_family := IPV4_UNICAST; c_dest := 1; c_best_changed := true; c_any_changed := true; c_replaced := None;
+     c_paths := [ {| p_lpid := 1; p_src := SrcPeer (set_llgr ps false); p_nh := nh; p_attrs := attrs |} ] |}.
+Definition llgr_change2 (ps : peer_src) (nh : option nexthop) (attrs : list attr) : change :=
+  {| c_family := IPV4_UNICAST; c_dest := 1; c_best_changed := false; c_any_changed := true; c_replaced := None;
+     c_paths := [ {| p_lpid := 1; p_src := SrcPeer (set_llgr ps true); p_nh := nh; p_attrs := attrs |} ] |}.
+
+Definition llgr_scenario_v (fixed : bool) (x : ectx) (pol : policy_fn) (emax : N) (raddr : ipaddr)
+           (cid : option N) (ps : peer_src) (nh : option nexthop) (attrs : list attr)
+  : res (list sinkop * list sinkop * emap) :=
+  let e0 := if emax =? 1 then ENone else EAddPath [] in
+  rbind (process_change_v fixed x pol emax raddr cid (llgr_change1 ps nh attrs) e0) (fun r1 =>
+    rbind (process_change_v fixed x pol emax raddr cid (llgr_change2 ps nh attrs) (snd r1)) (fun r2 =>
+      Ok (fst r1, fst r2, snd r2))).
+Definition llgr_scenario := llgr_scenario_v true.
 
 (* ------------------------------------------------------------ printers *)
 Definition v_attr (a : attr) : val :=
@@ -622,7 +662,9 @@ Inductive case :=
 | CInjectLp (attrs : list attr)                              (* 7 *)
 | CSuppress (s : source) (dest : role) (cid : option N)      (* 8 *)
 | CProcess (x : ectx) (emax : N) (raddr : ipaddr) (cid : option N) (c : change) (e : emap) (probe : list N) (* 9 *)
-| CRxLoop (x : ectx) (rid : N) (cid : option N) (attrs : list attr).   (* 10 *)
+| CRxLoop (x : ectx) (rid : N) (cid : option N) (attrs : list attr)    (* 10 *)
+| CLlgrScenario (x : ectx) (emax : N) (raddr : ipaddr) (cid : option N) (ps : peer_src)
+                (nh : option nexthop) (attrs : list attr).              (* 11 *)
 
 Definition run_case (c : case) : val :=
   match c with
@@ -642,4 +684,7 @@ Definition run_case (c : case) : val :=
           (process_change x no_policy emax raddr cid ch e)
   | CRxLoop x rid cid attrs =>
     v_res (fun o => VOpt v_attrs o) (rx_reach x rid cid attrs)
+  | CLlgrScenario x emax raddr cid ps nh attrs =>
+    v_res (fun r => VL [VList v_sinkop (fst (fst r)); VList v_sinkop (snd (fst r))])
+          (llgr_scenario x no_policy emax raddr cid ps nh attrs)
   end.
